@@ -37,6 +37,29 @@ LOSSLESS = {"float": {"float", "int", "bool"}, "int": {"int", "bool"}, "bool": {
 # ------------------------------------------------------------------------------------
 # V: structural contract of _vectorize_func
 # ------------------------------------------------------------------------------------
+def _semantic_probe(fl):
+    out = []
+
+    def r_float(x: float) -> float:
+        return 0 if x < 1 else x * 1.5
+
+    def r_bool(x: float) -> bool:
+        return 0 if x < 1 else x > 2
+
+    def r_str(x: "float") -> "float":  # noqa: UP037
+        return 1 if x < 1 else x / 4
+
+    for f, xs, want_dtype in ((r_float, [0.0, 1.5, 2.5], "float64"), (r_float, [2.5, 0.0, 1.5], "float64"), (r_bool, [0.0, 3.0, 1.5], "bool"), (r_str, [0.0, 1.0, 3.0], "float64")):
+        try:
+            got = fl._vectorize_func(f)(numpy.array(xs))
+            want = numpy.array([f(v) for v in xs], dtype=want_dtype)
+            if numpy.asarray(got).dtype.name != want_dtype or not numpy.array_equal(numpy.asarray(got), want):
+                out.append(f"rule {f.__name__} on rows {xs}: column {numpy.asarray(got).tolist()} ({numpy.asarray(got).dtype}), row-wise evaluation gives {want.tolist()} ({want_dtype})")
+        except Exception as ex:  # noqa: BLE001
+            out.append(f"rule {f.__name__} on rows {xs}: {ex!r}")
+    return out
+
+
 def vectorize_contract():
     """Behavioural contract of the real _vectorize_func, with numpy.vectorize replaced by a recording
     stub (robust to refactorings of its body):
@@ -61,9 +84,31 @@ def vectorize_contract():
 
             def vec(*aa, **kk):
                 rec["called_with"].append((aa, kk))
-                return ("vectorised-result-of", id(f))
+                return _Res(("vectorised-result-of", id(f)))
 
             return vec
+
+    class _Res:
+        """result sentinel: equal to its tag only while nothing was applied to it"""
+
+        def __init__(self, tag, ops=()):
+            self.tag, self.ops = tag, ops
+
+        def __eq__(self, o):
+            return not self.ops and o == self.tag
+
+        def __ne__(self, o):
+            return not self.__eq__(o)
+
+        __hash__ = None
+
+        def __getattr__(self, k):
+            if k.startswith("__"):
+                raise AttributeError(k)
+            return lambda *a, **kw: _Res(self.tag, (*self.ops, k))
+
+        def __repr__(self):
+            return f"<result of the vectorised function{''.join('.' + o + '(..)' for o in self.ops)}>"
 
     fails = []
     with_otypes = without_otypes = 0
@@ -110,11 +155,16 @@ def vectorize_contract():
         if o1 != ("vectorised-result-of", id(f1)) or o2 != ("vectorised-result-of", id(f2)):
             fails.append("V3 two distinct functions with the same module and qualified name: the second wrapper evaluates the first function")
     except Exception as ex:  # noqa: BLE001
-        return None, f"contract probes could not run: {ex!r}", fails
+        fails.append(f"contract probes could not run: {ex!r}")
     finally:
         fl.numpy = saved
     if fails:
-        return None, "; ".join(fails[:3]), fails
+        # the body no longer has the contracted shape: decide on adversarial rules with the real numpy --
+        # first row on an int-literal branch, later rows fractional (and the reverse order)
+        sem = _semantic_probe(fl)
+        if sem:
+            return None, "; ".join((sem + fails)[:3]), sem + fails
+        return None, "shape not recognised (" + "; ".join(fails[:2]) + "); adversarial probes agree with row-wise evaluation", []
     if with_otypes and without_otypes:
         return None, "otypes passed for some of float/int/bool annotations only", [f"V1 otypes passed for {with_otypes} of 6 annotation forms (type objects and strings of float/int/bool)"]
     if without_otypes:
